@@ -125,7 +125,7 @@ func solveObligation(c *Ctx, o *Obligation, budget int) {
 	}
 	// expensive FP operations: first with them uninterpreted (a proof under this over-approximation
 	// is a proof); exact semantics only if that fails
-	if !o.ExpectSat && (strings.Contains(text, "fmulX") || strings.Contains(text, "fdivX") || strings.Contains(text, "f2sX") || strings.Contains(text, "s2fX")) {
+	if !o.ExpectSat && (strings.Contains(text, "(fmulX ") || strings.Contains(text, "(fdivX ") || strings.Contains(text, "(f2sX ") || strings.Contains(text, "(s2fX ")) {
 		for _, level := range []int{2, 1} {
 			atext := c.emitFP(o, nil, level)
 			afile := strings.TrimSuffix(file, ".smt2") + fmt.Sprintf(".fpabs%d.smt2", level)
@@ -143,7 +143,7 @@ func solveObligation(c *Ctx, o *Obligation, budget int) {
 		}
 	}
 	// floating-point goals: cvc5 is often the only solver that answers quickly, so race at once
-	if !strings.Contains(text, "fp.") && !strings.Contains(text, "fmulX") && !strings.Contains(text, "fdivX") {
+	if !strings.Contains(strings.SplitN(text, "(declare-const", 2)[len(strings.SplitN(text, "(declare-const", 2))-1], "fp.") && !strings.Contains(text, "(fmulX ") && !strings.Contains(text, "(fdivX ") {
 		first := min(budget, 2)
 		r := runSolver(context.Background(), solvers[0], file, first)
 		if r.answer == "sat" || r.answer == "unsat" {
